@@ -177,7 +177,7 @@ def random_op(rng, sheet, focus=None):
     """one operation as a JSON-able list"""
     n = len(sheet.cssRules)
     kinds = KINDS if focus != 'namespace' else ['namespace', 'namespace', 'style', 'style', 'media', 'import', 'comment']
-    k = rng.choice(['insert', 'insert', 'add', 'add', 'delete', 'sheet-text', 'rule-text', 'encoding', 'ns-set', 'ns-del', 'nested-insert', 'nested-delete', 'nested-add',
+    k = rng.choice(['insert', 'insert', 'add', 'add', 'delete', 'sheet-text', 'rule-text', 'encoding', 'ns-set', 'ns-del', 'nested-insert', 'nested-delete', 'nested-add', 'insert-list',
                     'decl-set', 'decl-text', 'decl-remove', 'style-replace', 'selector-text', 'media-text']
                    if focus != 'namespace' else ['insert', 'add', 'add', 'delete', 'ns-set', 'ns-set', 'ns-del', 'ns-del', 'nested-add', 'prefix-set', 'uri-set', 'move-rule'])  # fmt: skip
     if k == 'insert':
@@ -186,6 +186,11 @@ def random_op(rng, sheet, focus=None):
         return [k, rng.choice(kinds), rng.randrange(6), rng.random() < 0.4]
     if k == 'delete':
         return [k, rng.randint(-1, n)]
+    if k == 'insert-list':
+        # a CSSRuleList of 2-3 rule objects, into the sheet or into a nested rule list
+        where = 'sheet' if rng.random() < 0.5 else rng.randrange(4)
+        members = [[rng.choice(['style', 'style', 'media', 'comment', 'page', 'fontface', 'import', 'unknown', 'margin', 'namespace']), rng.randrange(6)] for _ in range(rng.randint(2, 3))]
+        return [k, where, members, rng.randint(0, n if where == 'sheet' else 2)]
     if k == 'sheet-text':
         return [k, rng.choice(SEEDS + ['s1{top:0} @import "late.css";', 'a{} b{} @namespace late "u";', 'zz|a{top:0}', 's1{top:0}@charset "ascii";'])]
     if k == 'rule-text':
@@ -332,7 +337,27 @@ class Walk:
                 use = kind if mismatch else own
                 if use is None:
                     return 'skipped', None
+                kids = list(getattr(r, 'cssRules', None) or [])
+                oldstyle = getattr(r, 'style', None)
                 r.cssText = RULES[use][ti % len(RULES[use])]
+                # what the new text replaced is not part of the rule anymore
+                now = list(getattr(r, 'cssRules', None) or [])
+                self.removed.extend(x for x in kids[:3] if not any(x is y for y in now))
+                if oldstyle is not None and getattr(r, 'style', None) is not oldstyle:
+                    self.removed.append(oldstyle)
+            elif k == 'insert-list':
+                _, where, members, index = op
+                if where == 'sheet':
+                    target = sheet
+                else:
+                    cs = containers(sheet)
+                    if not cs:
+                        return 'skipped', None
+                    target = cs[where % len(cs)]
+                rl = c.css.CSSRuleList()
+                for kind, ti in members:
+                    rl.insert(len(rl), make_rule(c, kind, ti))  # (append is disabled on a bare CSSRuleList)
+                target.insertRule(rl, min(index, len(target.cssRules)))
             elif k == 'encoding':
                 sheet.encoding = op[1]
             elif k == 'ns-set':
